@@ -496,6 +496,15 @@ func checkC14(w *World) {
 			if c, ok := in.(*ssa.Call); ok {
 				if sc := staticCallee(c); sc != nil && funcFullName(sc) == "(*sync.WaitGroup).Wait" {
 					waits = true
+				} else if sc != nil && fnPkgKey(sc) == "xsel" && len(sc.Blocks) == 1 {
+					// a one-block helper of the command that does the waiting (a method of a pool object)
+					allInstrs(sc, func(in2 ssa.Instruction) {
+						if c2, ok := in2.(*ssa.Call); ok {
+							if s2 := staticCallee(c2); s2 != nil && funcFullName(s2) == "(*sync.WaitGroup).Wait" {
+								waits = true
+							}
+						}
+					})
 				}
 			}
 		})
